@@ -22,6 +22,9 @@ META = {
 }
 
 
+META['explanation'] += ' Rounds 4-5: ' + 'R5 now also shares C01.R4, R6, R8.'
+
+
 def r1_open_mode(ctx):
     for o in c01.r1_open_modes(ctx):
         if o.key.startswith('x12file:X12Reader.__init__'):
